@@ -155,25 +155,76 @@ pub mod gate {
 }
 
 /// Process-wide event trace: library code under `cfg(iroh_verif)` records the decisions it
-/// takes (in real-time order), the harness reads them back.  Off unless enabled.
+/// takes, the harness reads them back.  Off unless enabled.
+///
+/// The trace is one list behind one global lock.  A [`section`] keeps that lock for a piece
+/// of synchronous code: an operation on shared state performed inside a section and the
+/// events recorded inside it are atomic with respect to every other section and event, so
+/// the order of the trace is the order in which those operations really happened.
 pub mod trace {
-    use std::sync::{
-        Mutex,
-        atomic::{AtomicBool, Ordering},
+    use std::{
+        cell::RefCell,
+        marker::PhantomData,
+        sync::{
+            Mutex, MutexGuard,
+            atomic::{AtomicBool, Ordering},
+        },
     };
 
     static ENABLED: AtomicBool = AtomicBool::new(false);
     static EVENTS: Mutex<Vec<String>> = Mutex::new(Vec::new());
+
+    thread_local! {
+        /// The trace lock while the current thread is inside a [`section`].
+        static HELD: RefCell<Option<MutexGuard<'static, Vec<String>>>> = const { RefCell::new(None) };
+    }
 
     /// Turns recording on or off.
     pub fn enable(on: bool) {
         ENABLED.store(on, Ordering::SeqCst);
     }
 
+    /// Keeps the trace lock until dropped; not `Send`, so it cannot live across an `.await`.
+    #[derive(Debug)]
+    pub struct Section {
+        owner: bool,
+        _not_send: PhantomData<*const ()>,
+    }
+
+    /// Enters a section (no-op when recording is off or the thread is already inside one).
+    pub fn section() -> Section {
+        let mut owner = false;
+        if ENABLED.load(Ordering::SeqCst) {
+            HELD.with(|h| {
+                let mut h = h.borrow_mut();
+                if h.is_none() {
+                    *h = Some(EVENTS.lock().expect("poisoned"));
+                    owner = true;
+                }
+            });
+        }
+        Section {
+            owner,
+            _not_send: PhantomData,
+        }
+    }
+
+    impl Drop for Section {
+        fn drop(&mut self) {
+            if self.owner {
+                HELD.with(|h| h.borrow_mut().take());
+            }
+        }
+    }
+
     /// Records one event (when enabled).
     pub fn event(e: impl FnOnce() -> String) {
         if ENABLED.load(Ordering::SeqCst) {
-            EVENTS.lock().expect("poisoned").push(e());
+            let e = e();
+            HELD.with(|h| match h.borrow_mut().as_mut() {
+                Some(events) => events.push(e),
+                None => EVENTS.lock().expect("poisoned").push(e),
+            });
         }
     }
 
